@@ -27,9 +27,10 @@ use rustybgp_packet::mpls::{MplsLabel, MplsLabelStack};
 use rustybgp_packet::rd::RouteDistinguisher;
 use rustybgp_packet::{Nlri, evpn, flowspec, labeled, ls, mup, rtc, sr_policy, vpn};
 use std::io::Cursor;
-use std::net::{Ipv4Addr, Ipv6Addr};
+use std::net::{IpAddr, Ipv4Addr, Ipv6Addr};
 use std::sync::Arc;
 
+#[derive(Debug)]
 struct BadCase(&'static str);
 
 fn v4addr(v: &Val) -> Ipv4Addr {
@@ -90,6 +91,397 @@ fn generic_nlri(fam: Family, b: &[u8]) -> Result<Nlri, BadCase> {
     Ok(n)
 }
 
+
+fn ip_of(b: &[u8]) -> Result<IpAddr, BadCase> {
+    match b.len() {
+        4 => Ok(IpAddr::V4(Ipv4Addr::new(b[0], b[1], b[2], b[3]))),
+        16 => {
+            let a: [u8; 16] = b[..].try_into().unwrap();
+            Ok(IpAddr::V6(Ipv6Addr::from(a)))
+        }
+        _ => Err(BadCase("ip length")),
+    }
+}
+fn ip_val(a: &IpAddr) -> Val {
+    match a {
+        IpAddr::V4(x) => Val::from_bytes(&x.octets()),
+        IpAddr::V6(x) => Val::from_bytes(&x.octets()),
+    }
+}
+fn ops_of(v: &Val) -> Vec<flowspec::Op> {
+    v.list().iter().map(|o| flowspec::Op { bits: o.at(0).u8(), value: o.at(1).u64() }).collect()
+}
+fn ops_val(ops: &[flowspec::Op]) -> Val {
+    Val::L(ops.iter().map(|o| Val::L(vec![Val::n(o.bits), Val::n(o.value)])).collect())
+}
+fn fs4_comp_of(v: &Val) -> Result<flowspec::FlowspecV4Component, BadCase> {
+    use flowspec::FlowspecV4Component as C;
+    let l = v.list();
+    if l[0].int() == 0 {
+        let net = Ipv4Net { addr: v4addr(&l[4]), mask: l[2].u8() };
+        return match l[1].int() {
+            1 => Ok(C::DstPrefix(net)),
+            2 => Ok(C::SrcPrefix(net)),
+            _ => Err(BadCase("flowspec prefix component type")),
+        };
+    }
+    let ops = ops_of(&l[2]);
+    Ok(match l[1].int() {
+        3 => C::Protocol(ops),
+        4 => C::Port(ops),
+        5 => C::DstPort(ops),
+        6 => C::SrcPort(ops),
+        7 => C::IcmpType(ops),
+        8 => C::IcmpCode(ops),
+        9 => C::TcpFlags(ops),
+        10 => C::PacketLen(ops),
+        11 => C::Dscp(ops),
+        12 => C::Fragment(ops),
+        _ => return Err(BadCase("flowspec v4 component type")),
+    })
+}
+fn fs6_comp_of(v: &Val) -> Result<flowspec::FlowspecV6Component, BadCase> {
+    use flowspec::FlowspecV6Component as C;
+    let l = v.list();
+    if l[0].int() == 0 {
+        let prefix = Ipv6Net { addr: v6addr(&l[4]), mask: l[2].u8() };
+        let offset = l[3].u8();
+        return match l[1].int() {
+            1 => Ok(C::DstPrefix { prefix, offset }),
+            2 => Ok(C::SrcPrefix { prefix, offset }),
+            _ => Err(BadCase("flowspec prefix component type")),
+        };
+    }
+    let ops = ops_of(&l[2]);
+    Ok(match l[1].int() {
+        3 => C::NextHeader(ops),
+        4 => C::Port(ops),
+        5 => C::DstPort(ops),
+        6 => C::SrcPort(ops),
+        7 => C::IcmpType(ops),
+        8 => C::IcmpCode(ops),
+        9 => C::TcpFlags(ops),
+        10 => C::PacketLen(ops),
+        11 => C::Dscp(ops),
+        12 => C::Fragment(ops),
+        13 => C::FlowLabel(ops),
+        _ => return Err(BadCase("flowspec v6 component type")),
+    })
+}
+fn fs4_comp_val(c: &flowspec::FlowspecV4Component) -> Val {
+    use flowspec::FlowspecV4Component as C;
+    let pfx = |t: u8, n: &Ipv4Net| {
+        Val::L(vec![Val::n(0u8), Val::n(t), Val::n(n.mask), Val::n(0u8), Val::from_bytes(&n.addr.octets())])
+    };
+    let ops = |t: u8, o: &Vec<flowspec::Op>| Val::L(vec![Val::n(1u8), Val::n(t), ops_val(o)]);
+    match c {
+        C::DstPrefix(n) => pfx(1, n),
+        C::SrcPrefix(n) => pfx(2, n),
+        C::Protocol(o) => ops(3, o),
+        C::Port(o) => ops(4, o),
+        C::DstPort(o) => ops(5, o),
+        C::SrcPort(o) => ops(6, o),
+        C::IcmpType(o) => ops(7, o),
+        C::IcmpCode(o) => ops(8, o),
+        C::TcpFlags(o) => ops(9, o),
+        C::PacketLen(o) => ops(10, o),
+        C::Dscp(o) => ops(11, o),
+        C::Fragment(o) => ops(12, o),
+    }
+}
+fn fs6_comp_val(c: &flowspec::FlowspecV6Component) -> Val {
+    use flowspec::FlowspecV6Component as C;
+    let pfx = |t: u8, n: &Ipv6Net, off: u8| {
+        Val::L(vec![Val::n(0u8), Val::n(t), Val::n(n.mask), Val::n(off), Val::from_bytes(&n.addr.octets())])
+    };
+    let ops = |t: u8, o: &Vec<flowspec::Op>| Val::L(vec![Val::n(1u8), Val::n(t), ops_val(o)]);
+    match c {
+        C::DstPrefix { prefix, offset } => pfx(1, prefix, *offset),
+        C::SrcPrefix { prefix, offset } => pfx(2, prefix, *offset),
+        C::NextHeader(o) => ops(3, o),
+        C::Port(o) => ops(4, o),
+        C::DstPort(o) => ops(5, o),
+        C::SrcPort(o) => ops(6, o),
+        C::IcmpType(o) => ops(7, o),
+        C::IcmpCode(o) => ops(8, o),
+        C::TcpFlags(o) => ops(9, o),
+        C::PacketLen(o) => ops(10, o),
+        C::Dscp(o) => ops(11, o),
+        C::Fragment(o) => ops(12, o),
+        C::FlowLabel(o) => ops(13, o),
+    }
+}
+// BGP-LS: descriptors travel as <type, value> pairs; the struct fields / enum variants are built from them
+fn tlvs_of(v: &Val) -> Vec<(u16, Vec<u8>)> {
+    v.list().iter().map(|t| (t.at(0).u16(), t.at(1).bytes())).collect()
+}
+fn tlvs_val(t: &[(u16, Vec<u8>)]) -> Val {
+    Val::L(t.iter().map(|(ty, v)| Val::L(vec![Val::n(*ty), Val::from_bytes(v)])).collect())
+}
+fn u32_of(b: &[u8]) -> Result<u32, BadCase> {
+    let a: [u8; 4] = b.try_into().map_err(|_| BadCase("u32 field"))?;
+    Ok(u32::from_be_bytes(a))
+}
+fn node_desc_of(v: &Val) -> Result<ls::NodeDescriptor, BadCase> {
+    let mut nd = ls::NodeDescriptor::default();
+    let mut last = 0u16;
+    for (ty, val) in tlvs_of(v) {
+        if ty <= last {
+            return Err(BadCase("node descriptor order"));
+        }
+        last = ty;
+        match ty {
+            512 => nd.asn = Some(u32_of(&val)?),
+            513 => nd.bgp_ls_id = Some(u32_of(&val)?),
+            514 => nd.ospf_area_id = Some(u32_of(&val)?),
+            515 => nd.igp_router_id = Some(val),
+            516 => nd.bgp_router_id = Some(val[..].try_into().map_err(|_| BadCase("router id"))?),
+            517 => nd.bgp_confederation_member = Some(u32_of(&val)?),
+            _ => return Err(BadCase("node descriptor type")),
+        }
+    }
+    Ok(nd)
+}
+fn node_desc_val(nd: &ls::NodeDescriptor) -> Val {
+    let mut t: Vec<(u16, Vec<u8>)> = Vec::new();
+    if let Some(x) = nd.asn { t.push((512, x.to_be_bytes().to_vec())); }
+    if let Some(x) = nd.bgp_ls_id { t.push((513, x.to_be_bytes().to_vec())); }
+    if let Some(x) = nd.ospf_area_id { t.push((514, x.to_be_bytes().to_vec())); }
+    if let Some(x) = &nd.igp_router_id { t.push((515, x.clone())); }
+    if let Some(x) = nd.bgp_router_id { t.push((516, x.to_vec())); }
+    if let Some(x) = nd.bgp_confederation_member { t.push((517, x.to_be_bytes().to_vec())); }
+    tlvs_val(&t)
+}
+fn mt_ids(v: &[u8]) -> Vec<u16> {
+    v.chunks_exact(2).map(|b| u16::from_be_bytes([b[0], b[1]])).collect()
+}
+fn link_desc_of(v: &Val) -> Vec<ls::LinkDescTlv> {
+    use ls::LinkDescTlv as L;
+    tlvs_of(v)
+        .into_iter()
+        .map(|(ty, val)| match (ty, val.len()) {
+            (258, 8) => L::LinkId { local: u32_of(&val[..4]).unwrap(), remote: u32_of(&val[4..]).unwrap() },
+            (259, 4) => L::Ipv4InterfaceAddr(val[..].try_into().unwrap()),
+            (260, 4) => L::Ipv4NeighborAddr(val[..].try_into().unwrap()),
+            (261, 16) => L::Ipv6InterfaceAddr(val[..].try_into().unwrap()),
+            (262, 16) => L::Ipv6NeighborAddr(val[..].try_into().unwrap()),
+            (263, n) if n % 2 == 0 => L::MultiTopoId(mt_ids(&val)),
+            _ => L::Unknown { tlv_type: ty, value: val },
+        })
+        .collect()
+}
+fn link_desc_val(t: &[ls::LinkDescTlv]) -> Val {
+    use ls::LinkDescTlv as L;
+    let v: Vec<(u16, Vec<u8>)> = t
+        .iter()
+        .map(|x| match x {
+            L::LinkId { local, remote } => {
+                let mut b = local.to_be_bytes().to_vec();
+                b.extend_from_slice(&remote.to_be_bytes());
+                (258, b)
+            }
+            L::Ipv4InterfaceAddr(a) => (259, a.to_vec()),
+            L::Ipv4NeighborAddr(a) => (260, a.to_vec()),
+            L::Ipv6InterfaceAddr(a) => (261, a.to_vec()),
+            L::Ipv6NeighborAddr(a) => (262, a.to_vec()),
+            L::MultiTopoId(ids) => (263, ids.iter().flat_map(|i| i.to_be_bytes()).collect()),
+            L::Unknown { tlv_type, value } => (*tlv_type, value.clone()),
+        })
+        .collect();
+    tlvs_val(&v)
+}
+fn prefix_desc_of(v: &Val) -> Vec<ls::PrefixDescTlv> {
+    use ls::PrefixDescTlv as P;
+    tlvs_of(v)
+        .into_iter()
+        .map(|(ty, val)| match (ty, val.len()) {
+            (263, n) if n % 2 == 0 => P::MultiTopoId(mt_ids(&val)),
+            (264, 1) => P::OspfRouteType(val[0]),
+            (265, n) if n >= 1 => P::IpReachability { prefix_len: val[0], addr: val[1..].to_vec() },
+            _ => P::Unknown { tlv_type: ty, value: val },
+        })
+        .collect()
+}
+fn prefix_desc_val(t: &[ls::PrefixDescTlv]) -> Val {
+    use ls::PrefixDescTlv as P;
+    let v: Vec<(u16, Vec<u8>)> = t
+        .iter()
+        .map(|x| match x {
+            P::MultiTopoId(ids) => (263, ids.iter().flat_map(|i| i.to_be_bytes()).collect()),
+            P::OspfRouteType(t) => (264, vec![*t]),
+            P::IpReachability { prefix_len, addr } => {
+                let mut b = vec![*prefix_len];
+                b.extend_from_slice(addr);
+                (265, b)
+            }
+            P::Unknown { tlv_type, value } => (*tlv_type, value.clone()),
+        })
+        .collect();
+    tlvs_val(&v)
+}
+fn ls_of(l: &[Val]) -> Result<ls::BgpLsNlri, BadCase> {
+    Ok(match l[1].int() {
+        1 => ls::BgpLsNlri::Node(ls::BgpLsNodeNlri { protocol_id: l[2].u8(), identifier: l[3].u64(), local_node: node_desc_of(&l[4])? }),
+        2 => ls::BgpLsNlri::Link(ls::BgpLsLinkNlri {
+            protocol_id: l[2].u8(),
+            identifier: l[3].u64(),
+            local_node: node_desc_of(&l[4])?,
+            remote_node: node_desc_of(&l[5])?,
+            link_desc: link_desc_of(&l[6]),
+        }),
+        3 | 4 => {
+            let n = ls::BgpLsPrefixNlri {
+                protocol_id: l[2].u8(),
+                identifier: l[3].u64(),
+                local_node: node_desc_of(&l[4])?,
+                prefix_desc: prefix_desc_of(&l[5]),
+            };
+            if l[1].int() == 3 { ls::BgpLsNlri::PrefixV4(n) } else { ls::BgpLsNlri::PrefixV6(n) }
+        }
+        6 => {
+            let mut sids = Vec::new();
+            let mut mts = Vec::new();
+            for s in l[5].list() {
+                mts.push(s.at(0).u16());
+                let a: [u8; 16] = s.at(1).bytes()[..].try_into().map_err(|_| BadCase("sid"))?;
+                sids.push(a);
+            }
+            ls::BgpLsNlri::Srv6Sid(ls::BgpLsSrv6SidNlri {
+                protocol_id: l[2].u8(),
+                identifier: l[3].u64(),
+                local_node: node_desc_of(&l[4])?,
+                sids,
+                multi_topo_ids: mts,
+            })
+        }
+        0 => ls::BgpLsNlri::Unknown { nlri_type: l[2].u16(), body: l[3].bytes() },
+        _ => return Err(BadCase("ls nlri kind")),
+    })
+}
+fn ls_val(n: &ls::BgpLsNlri) -> Val {
+    let t = |x: u8| Val::n(x);
+    match n {
+        ls::BgpLsNlri::Node(x) => Val::L(vec![t(15), t(1), Val::n(x.protocol_id), Val::n(x.identifier), node_desc_val(&x.local_node)]),
+        ls::BgpLsNlri::Link(x) => Val::L(vec![
+            t(15),
+            t(2),
+            Val::n(x.protocol_id),
+            Val::n(x.identifier),
+            node_desc_val(&x.local_node),
+            node_desc_val(&x.remote_node),
+            link_desc_val(&x.link_desc),
+        ]),
+        ls::BgpLsNlri::PrefixV4(x) => {
+            Val::L(vec![t(15), t(3), Val::n(x.protocol_id), Val::n(x.identifier), node_desc_val(&x.local_node), prefix_desc_val(&x.prefix_desc)])
+        }
+        ls::BgpLsNlri::PrefixV6(x) => {
+            Val::L(vec![t(15), t(4), Val::n(x.protocol_id), Val::n(x.identifier), node_desc_val(&x.local_node), prefix_desc_val(&x.prefix_desc)])
+        }
+        ls::BgpLsNlri::Srv6Sid(x) => Val::L(vec![
+            t(15),
+            t(6),
+            Val::n(x.protocol_id),
+            Val::n(x.identifier),
+            node_desc_val(&x.local_node),
+            Val::L(
+                x.sids
+                    .iter()
+                    .enumerate()
+                    .map(|(i, s)| Val::L(vec![Val::n(x.multi_topo_ids.get(i).copied().unwrap_or(0)), Val::from_bytes(s)]))
+                    .collect(),
+            ),
+        ]),
+        ls::BgpLsNlri::Unknown { nlri_type, body } => Val::L(vec![t(15), t(0), Val::n(*nlri_type), Val::from_bytes(body)]),
+    }
+}
+
+fn esi_of(v: &Val) -> Result<evpn::Esi, BadCase> {
+    let b = v.bytes();
+    let a: [u8; 10] = b[..].try_into().map_err(|_| BadCase("esi"))?;
+    Ok(evpn::Esi(a))
+}
+fn evpn_of(l: &[Val]) -> Result<evpn::EvpnNlri, BadCase> {
+    Ok(match l[1].int() {
+        1 => evpn::EvpnNlri::EthernetAutoDiscovery(evpn::EthernetAutoDiscoveryRoute {
+            rd: rd_of(&l[2])?,
+            esi: esi_of(&l[3])?,
+            etag: l[4].u32(),
+            label: l[5].u32(),
+        }),
+        2 => {
+            let mac: [u8; 6] = l[5].bytes()[..].try_into().map_err(|_| BadCase("mac"))?;
+            let ipb = l[6].bytes();
+            evpn::EvpnNlri::MacIpAdvertisement(evpn::MacIpAdvertisement {
+                rd: rd_of(&l[2])?,
+                esi: esi_of(&l[3])?,
+                etag: l[4].u32(),
+                mac,
+                ip: if ipb.is_empty() { None } else { Some(ip_of(&ipb)?) },
+                label1: l[7].u32(),
+                label2: l[8].list().first().map(|x| x.u32()),
+            })
+        }
+        3 => evpn::EvpnNlri::InclusiveMulticastEthernetTag(evpn::InclusiveMulticastEthernetTag {
+            rd: rd_of(&l[2])?,
+            etag: l[3].u32(),
+            originating_router_ip: ip_of(&l[4].bytes())?,
+        }),
+        4 => evpn::EvpnNlri::EthernetSegment(evpn::EthernetSegmentRoute {
+            rd: rd_of(&l[2])?,
+            esi: esi_of(&l[3])?,
+            originating_router_ip: ip_of(&l[4].bytes())?,
+        }),
+        5 => evpn::EvpnNlri::EthernetIpPrefix(evpn::EthernetIpPrefixRoute {
+            rd: rd_of(&l[2])?,
+            esi: esi_of(&l[3])?,
+            etag: l[4].u32(),
+            prefix_len: l[5].u8(),
+            ip_prefix: ip_of(&l[6].bytes())?,
+            gateway_ip: ip_of(&l[7].bytes())?,
+            label: l[8].u32(),
+        }),
+        _ => return Err(BadCase("evpn route type")),
+    })
+}
+fn evpn_val(e: &evpn::EvpnNlri) -> Val {
+    use evpn::EvpnNlri as E;
+    let t = |n: u8| Val::n(n);
+    match e {
+        E::EthernetAutoDiscovery(r) => Val::L(vec![t(12), t(1), rd_val(&r.rd), Val::from_bytes(&r.esi.0), Val::n(r.etag), Val::n(r.label)]),
+        E::MacIpAdvertisement(r) => Val::L(vec![
+            t(12),
+            t(2),
+            rd_val(&r.rd),
+            Val::from_bytes(&r.esi.0),
+            Val::n(r.etag),
+            Val::from_bytes(&r.mac),
+            match &r.ip {
+                Some(a) => ip_val(a),
+                None => Val::L(vec![]),
+            },
+            Val::n(r.label1),
+            Val::opt(r.label2.map(Val::n)),
+        ]),
+        E::InclusiveMulticastEthernetTag(r) => {
+            Val::L(vec![t(12), t(3), rd_val(&r.rd), Val::n(r.etag), ip_val(&r.originating_router_ip)])
+        }
+        E::EthernetSegment(r) => {
+            Val::L(vec![t(12), t(4), rd_val(&r.rd), Val::from_bytes(&r.esi.0), ip_val(&r.originating_router_ip)])
+        }
+        E::EthernetIpPrefix(r) => Val::L(vec![
+            t(12),
+            t(5),
+            rd_val(&r.rd),
+            Val::from_bytes(&r.esi.0),
+            Val::n(r.etag),
+            Val::n(r.prefix_len),
+            ip_val(&r.ip_prefix),
+            ip_val(&r.gateway_ip),
+            Val::n(r.label),
+        ]),
+    }
+}
+
 fn nlri_of(v: &Val) -> Result<Nlri, BadCase> {
     let l = v.list();
     Ok(match l[0].int() {
@@ -114,6 +506,75 @@ fn nlri_of(v: &Val) -> Result<Nlri, BadCase> {
             prefix: Ipv6Net { addr: v6addr(&l[3]), mask: l[2].u8() },
         }),
         9 => generic_nlri(caps::fam_of(&l[1]), &l[2].bytes())?,
+        10 => {
+            let v6 = l[1].bool();
+            let rd = match l[2].list().first() {
+                Some(b) => Some(rd_of(b)?),
+                None => None,
+            };
+            if v6 {
+                let comps = l[3].list().iter().map(fs6_comp_of).collect::<Result<Vec<_>, _>>()?;
+                match rd {
+                    Some(rd) => Nlri::FlowspecVpnV6(flowspec::FlowspecVpnV6Nlri { rd, components: comps }),
+                    None => Nlri::FlowspecV6(flowspec::FlowspecV6Nlri { components: comps }),
+                }
+            } else {
+                let comps = l[3].list().iter().map(fs4_comp_of).collect::<Result<Vec<_>, _>>()?;
+                match rd {
+                    Some(rd) => Nlri::FlowspecVpnV4(flowspec::FlowspecVpnV4Nlri { rd, components: comps }),
+                    None => Nlri::FlowspecV4(flowspec::FlowspecV4Nlri { components: comps }),
+                }
+            }
+        }
+        11 => Nlri::Rtc(rtc::RtcNlri {
+            match_type: match l[1].int() {
+                0 => rtc::MatchType::Wildcard,
+                1 => rtc::MatchType::AsWildcard { origin_as: l[2].u32() },
+                2 => {
+                    let b = l[3].bytes();
+                    let rt: [u8; 8] = b[..].try_into().map_err(|_| BadCase("rt"))?;
+                    rtc::MatchType::ExactMatch { origin_as: l[2].u32(), route_target: rt }
+                }
+                _ => return Err(BadCase("rtc kind")),
+            },
+        }),
+        12 => Nlri::Evpn(evpn_of(l)?),
+        14 => Nlri::Mup(match l[1].int() {
+            1 => mup::MupNlri::InterworkSegmentDiscovery(mup::MupInterworkSegmentDiscoveryRoute {
+                rd: rd_of(&l[2])?,
+                prefix_len: l[3].u8(),
+                prefix_addr: ip_of(&l[4].bytes())?,
+            }),
+            2 => mup::MupNlri::DirectSegmentDiscovery(mup::MupDirectSegmentDiscoveryRoute {
+                rd: rd_of(&l[2])?,
+                address: ip_of(&l[3].bytes())?,
+            }),
+            3 => mup::MupNlri::Type1SessionTransformed(mup::MupType1SessionTransformedRoute {
+                rd: rd_of(&l[2])?,
+                prefix_len: l[3].u8(),
+                prefix_addr: ip_of(&l[4].bytes())?,
+                teid: l[5].u32(),
+                qfi: l[6].u8(),
+                endpoint_address: ip_of(&l[7].bytes())?,
+                source_address: match l[8].list().first() {
+                    Some(b) => Some(ip_of(&b.bytes())?),
+                    None => None,
+                },
+            }),
+            4 => mup::MupNlri::Type2SessionTransformed(mup::MupType2SessionTransformedRoute {
+                rd: rd_of(&l[2])?,
+                endpoint_address_length: l[3].u8(),
+                endpoint_address: ip_of(&l[4].bytes())?,
+                teid: l[5].u32(),
+            }),
+            _ => return Err(BadCase("mup route type")),
+        }),
+        15 => Nlri::Ls(ls_of(l)?),
+        13 => Nlri::SrPolicy(sr_policy::SrPolicyNlri {
+            distinguisher: l[1].u32(),
+            color: l[2].u32(),
+            endpoint: ip_of(&l[3].bytes())?,
+        }),
         _ => return Err(BadCase("nlri tag")),
     })
 }
@@ -148,6 +609,45 @@ fn nlri_val(fam: Family, n: &Nlri) -> Val {
             Val::n(x.prefix.mask),
             Val::from_bytes(&x.prefix.addr.octets()),
         ]),
+        Nlri::FlowspecV4(x) => Val::L(vec![Val::n(10u8), Val::n(0u8), Val::L(vec![]), Val::L(x.components.iter().map(fs4_comp_val).collect())]),
+        Nlri::FlowspecV6(x) => Val::L(vec![Val::n(10u8), Val::n(1u8), Val::L(vec![]), Val::L(x.components.iter().map(fs6_comp_val).collect())]),
+        Nlri::FlowspecVpnV4(x) => Val::L(vec![Val::n(10u8), Val::n(0u8), Val::L(vec![rd_val(&x.rd)]), Val::L(x.components.iter().map(fs4_comp_val).collect())]),
+        Nlri::FlowspecVpnV6(x) => Val::L(vec![Val::n(10u8), Val::n(1u8), Val::L(vec![rd_val(&x.rd)]), Val::L(x.components.iter().map(fs6_comp_val).collect())]),
+        Nlri::Rtc(x) => match &x.match_type {
+            rtc::MatchType::Wildcard => Val::L(vec![Val::n(11u8), Val::n(0u8), Val::n(0u8), Val::L(vec![])]),
+            rtc::MatchType::AsWildcard { origin_as } => Val::L(vec![Val::n(11u8), Val::n(1u8), Val::n(*origin_as), Val::L(vec![])]),
+            rtc::MatchType::ExactMatch { origin_as, route_target } => {
+                Val::L(vec![Val::n(11u8), Val::n(2u8), Val::n(*origin_as), Val::from_bytes(route_target)])
+            }
+        },
+        Nlri::Evpn(x) => evpn_val(x),
+        Nlri::Ls(x) => ls_val(x),
+        Nlri::Mup(x) => match x {
+            mup::MupNlri::InterworkSegmentDiscovery(r) => {
+                Val::L(vec![Val::n(14u8), Val::n(1u8), rd_val(&r.rd), Val::n(r.prefix_len), ip_val(&r.prefix_addr)])
+            }
+            mup::MupNlri::DirectSegmentDiscovery(r) => Val::L(vec![Val::n(14u8), Val::n(2u8), rd_val(&r.rd), ip_val(&r.address)]),
+            mup::MupNlri::Type1SessionTransformed(r) => Val::L(vec![
+                Val::n(14u8),
+                Val::n(3u8),
+                rd_val(&r.rd),
+                Val::n(r.prefix_len),
+                ip_val(&r.prefix_addr),
+                Val::n(r.teid),
+                Val::n(r.qfi),
+                ip_val(&r.endpoint_address),
+                Val::opt(r.source_address.as_ref().map(ip_val)),
+            ]),
+            mup::MupNlri::Type2SessionTransformed(r) => Val::L(vec![
+                Val::n(14u8),
+                Val::n(4u8),
+                rd_val(&r.rd),
+                Val::n(r.endpoint_address_length),
+                ip_val(&r.endpoint_address),
+                Val::n(r.teid),
+            ]),
+        },
+        Nlri::SrPolicy(x) => Val::L(vec![Val::n(13u8), Val::n(x.distinguisher), Val::n(x.color), ip_val(&x.endpoint)]),
         other => Val::L(vec![
             Val::n(9u8),
             caps::fam_val(&fam),
@@ -192,7 +692,16 @@ fn nexthop_of(v: &Val) -> Result<Option<Nexthop>, BadCase> {
     }
 }
 fn nexthop_val(n: &Option<Nexthop>) -> Val {
-    Val::opt(n.as_ref().map(|n| Val::from_bytes(&n.to_bytes())))
+    // spelled out (not Nexthop::to_bytes, which is part of the code under test)
+    Val::opt(n.as_ref().map(|n| match n {
+        Nexthop::V4(a) => Val::from_bytes(&a.octets()),
+        Nexthop::V6(a) => Val::from_bytes(&a.octets()),
+        Nexthop::V6LinkLocal(g, l) => {
+            let mut v = g.octets().to_vec();
+            v.extend_from_slice(&l.octets());
+            Val::from_bytes(&v)
+        }
+    }))
 }
 
 fn attr_of(v: &Val) -> Result<Attribute, BadCase> {
